@@ -7,7 +7,7 @@
 //!   shards <cri|cfi|clat> k1 k2 ...            -> "<#shards> s1 s2 ..."  shard of each key in the real DashMap
 //!   <type> <P> <n0> <n1> <n2> op op ...        type in hv hvt fm lat ni cri cfi clat cni
 //!        P  = size of the rayon pool whose worker threads perform the serial inserts of `cni`
-//!        n0 n1 n2 = sizes of the pools in which slots 0 (new) 1 (delta) 2 (total) are created (cni only)
+//!        n0 n1 n2 = sizes of the pools in which slots 0 (new) 1 (delta) 2 (total) are created (cni cri cfi clat)
 //!   ops (comma separated fields; s = slot):
 //!     ins,s,k,v  cins,s,k,v  np,s,k,v  cnp,s,k,v      writes (RelIndexWrite / CRelIndexWrite / RelFullIndexWrite / CRelFullIndexWrite)
 //!     get,s,k  has,s,k  len,s  emp,s  iter,s          reads
